@@ -156,6 +156,7 @@ func step(h, no, np int) {
 	}
 	checkFrame(pre, post, 12)
 	checkClosedStay(pre, post)
+	checkEvents(pre, post, e.ctx.EventManager().Events(), h)
 }
 
 // checkFrame: every record of deployment dseq is unchanged
